@@ -294,30 +294,32 @@ func (fv *FV) closureAxiom(st *State, x *ast.FuncLit, t Term) {
 		return
 	}
 	sig := fv.typeOf(x).(*types.Signature)
-	if sig.Params().Len() != 2 || sig.Results().Len() != 1 {
+	if sig.Results().Len() != 1 || sig.Params().Len() == 0 {
 		return
 	}
-	if b, ok := sig.Results().At(0).Type().Underlying().(*types.Basic); !ok || b.Kind() != types.Int {
-		return
-	}
-	if !types.Identical(sig.Params().At(0).Type(), sig.Params().At(1).Type()) {
-		return
-	}
-	// evaluate the body with fresh universally quantified parameters
+	// evaluate the body with universally quantified parameters
 	var pnames []*ast.Ident
 	for _, f := range x.Type.Params.List {
 		pnames = append(pnames, f.Names...)
 	}
-	if len(pnames) != 2 {
+	if len(pnames) != sig.Params().Len() {
 		return
 	}
-	ps := fv.sortOf(sig.Params().At(0).Type())
 	sub := st.clone()
 	fv.nfresh++
-	a := fmt.Sprintf("ca?%d", fv.nfresh)
-	b := fmt.Sprintf("cb?%d", fv.nfresh)
-	sub.vars[fv.info.Defs[pnames[0]]] = Term{S: a, Sort: ps, T: sig.Params().At(0).Type()}
-	sub.vars[fv.info.Defs[pnames[1]]] = Term{S: b, Sort: ps, T: sig.Params().At(1).Type()}
+	var binders []string
+	var params []Term
+	for i, pn := range pnames {
+		pt := sig.Params().At(i).Type()
+		ps := fv.sortOf(pt)
+		name := fmt.Sprintf("c%d?%d", i, fv.nfresh)
+		binders = append(binders, fmt.Sprintf("(%s %s)", name, ps))
+		pterm := Term{S: name, Sort: ps, T: pt}
+		params = append(params, pterm)
+		if pn.Name != "_" {
+			sub.vars[fv.info.Defs[pn]] = pterm
+		}
+	}
 	var body Term
 	okb := true
 	func() {
@@ -331,20 +333,31 @@ func (fv *FV) closureAxiom(st *State, x *ast.FuncLit, t Term) {
 			}
 		}()
 		save := len(fv.obls)
-		saveRoles := fv.localRolesTmp
+		names := map[string]int{}
+		for k, v := range fv.oblNames {
+			names[k] = v
+		}
 		body = fv.evalExpr(sub, ret.Results[0])
 		fv.obls = fv.obls[:save]
-		_ = saveRoles
+		fv.oblNames = names
 	}()
-	if !okb || body.Sort != sInt {
+	if !okb {
 		return
 	}
-	lhs := fv.ordTerm(t, Term{S: a, Sort: ps}, Term{S: b, Sort: ps})
-	fv.define(st, fmt.Sprintf("(forall ((%s %s) (%s %s)) (! (= %s %s) :pattern (%s)))", a, ps, b, ps, lhs.S, body.S, lhs.S))
-	if fv.localRoles == nil {
-		fv.localRoles = map[types.Object]string{}
+	isOrdShape := len(params) == 2 && params[0].Sort == params[1].Sort && body.Sort == sInt
+	if isOrdShape {
+		// a comparison adapter: ord(closure, a, b) == body
+		lhs := fv.ordTerm(t, params[0], params[1])
+		fv.define(st, fmt.Sprintf("(forall (%s) (! (= %s %s) :pattern (%s)))", strings.Join(binders, " "), lhs.S, body.S, lhs.S))
+		fv.closureIsOrd[t.S] = true
 	}
-	fv.closureIsOrd[t.S] = true
+	// as a pure function value: apply(closure, params…) == body (heap reads are those of the state in which the
+	// closure was created; the functions in scope do not modify what their closures read)
+	lhs := fv.pureApp(t, params)
+	if lhs.Sort == body.Sort {
+		fv.define(st, fmt.Sprintf("(forall (%s) (! (= %s %s) :pattern (%s)))", strings.Join(binders, " "), lhs.S, body.S, lhs.S))
+		fv.assumptions["closure literals with a single return expression are treated as pure functions of their parameters, reading the heap as it was when the closure was created"] = true
+	}
 }
 
 func (fv *FV) callClosure(st *State, cl *closure, c *ast.CallExpr) []Term {
